@@ -243,12 +243,40 @@ def _run_overlay(case, d):
                            (e.get("args") or {}).get("weight"), 1 if (e.get("args") or {}).get("critical") else 0, e.get("name"),
                            sorted(k2 for k2 in e.keys())] for e in tail]
             o["other_keys_same"] = {k2: v for k2, v in doc.items() if k2 != "traceEvents"} == {k2: v for k2, v in _read_tool(src_path).items() if k2 != "traceEvents"}
+            # the written file is itself a trace file: rank discovery over its directory finds it under the source's rank
+            from hta.common.trace_file import create_rank_to_trace_dict_from_dir
+            okd, found = create_rank_to_trace_dict_from_dir(out_dir)
+            o["discovered"] = [bool(okd), sorted([int(r_), os.path.basename(p_)] for r_, p_ in found.items())]
+            o["expected_discovery"] = [True, [[int(rank), os.path.basename(path)]]]
         except Exception as e:
             import traceback
             o["error"] = type(e).__name__ + ": " + str(e)[:200] + " @ " + traceback.format_exc()[-300:]
         outs.append(o)
     os.environ.pop("CRITICAL_PATH_SHOW_ZERO_WEIGHT_LAUNCH_EDGE", None)
     res["overlays"] = outs
+    # history: a what-if re-weighting of the same graph, the path recomputed, then drawn again (all events kept): the marks and flows are
+    # those of the NEW path
+    try:
+        rng = random.Random(case["params"]["pseed"] + 23)
+        for u, v in list(g.edges):
+            if rng.random() < 0.4:
+                g.edges[u, v]["weight"] = int(g.edges[u, v]["weight"]) * rng.choice([0, 3, 10])
+        if any(int(g.edges[u, v]["weight"]) != 0 for u, v in g.edges) and g.critical_path():
+            o = {"only_crit": False, "show_all": False, "zw_show": False, "graph": cp.dump_graph(g), "reweighted": True}
+            path = ta.overlay_critical_path_analysis(rank, g, os.path.join(d, "ov_whatif"), only_show_critical_events=False, show_all_edges=False)
+            evs = _read_tool(path)["traceEvents"]
+            nflow = 0
+            while nflow < len(evs) and _is_cp_flow(evs[len(evs) - 1 - nflow]):
+                nflow += 1
+            head, tail = evs[:len(evs) - nflow], evs[len(evs) - nflow:]
+            o["head"] = [[it.tok(e), 1 if (isinstance(e.get("args"), dict) and e["args"].get("critical", 0) == 1) else 0] for e in head]
+            o["flows"] = [[1 if e["ph"] == "s" else 0, e.get("id"), _int(e.get("pid")), _int(e.get("tid")), e.get("ts"), CAT.get(e.get("cat"), -1),
+                           (e.get("args") or {}).get("weight"), 1 if (e.get("args") or {}).get("critical") else 0, e.get("name"),
+                           sorted(k2 for k2 in e.keys())] for e in tail]
+            outs.append(o)
+    except Exception as e:
+        import traceback
+        res["whatif_error"] = type(e).__name__ + ": " + str(e)[:200] + " @ " + traceback.format_exc()[-300:]
     # histories on the one TraceAnalysis object: (a) a second analysis over another window, overlaid after the first;
     # (b) the trace with counters written after the overlays: its source part must carry no marker at all
     try:
@@ -483,8 +511,14 @@ def coq_term(case, impl):
         def graph_lits(g):
             N = pC08.nodes_lit(g)
             all_e = "[" + "; ".join(f"mkE {fw.z(be[0])} {fw.z(be[1])} {fw.z(w)} {TY[t]}" for u, v, w, _wa, t, be in sorted(g["edges"], key=lambda e: (e[5], e[2], e[4]))) + "]"
-            cp_e = "[" + "; ".join(f"mkE {fw.z(u)} {fw.z(v)} {fw.z(w)} {TY[t]}" for u, v, w, t in g["cp_edges"]) + "]"
-            return N, cp_e, all_e, fw.zl(g["cp_events"])
+            # the critical edges and events are read off the reported PATH (consecutive nodes), not off the reported sets: which events
+            # are marked and which edges are drawn is the overlay's own business
+            by = {(be[0], be[1]): (w, t) for u, v, w, _wa, t, be in g["edges"]}
+            pairs = list(zip(g["cp_nodes"], g["cp_nodes"][1:]))
+            cpl = sorted([a, b_, by[(a, b_)][0], by[(a, b_)][1]] for a, b_ in pairs if (a, b_) in by)
+            cp_e = "[" + "; ".join(f"mkE {fw.z(u)} {fw.z(v)} {fw.z(w)} {TY[t]}" for u, v, w, t in cpl) + "]"
+            ev_of = {n[0]: n[1] for n in g["nodes"]}
+            return N, cp_e, all_e, fw.zl(sorted({ev_of[n] for n in g["cp_nodes"] if n in ev_of}))
         N, cp_e, all_e, crit = graph_lits(impl["graph"])
         src = "[" + ";\n    ".join(_w_lit(x) for x in impl["src"]) + "]"
         terms = []
@@ -574,6 +608,10 @@ def compare(case, impl, model):
                             f"as (pid, tid, ts, type, weight, critical) [{opt}]")
             if not o.get("other_keys_same", True):
                 disc.append(f"keys other than traceEvents differ from the source [{opt}]")
+            if "discovered" in o and o["discovered"] != o["expected_discovery"]:
+                disc.append(f"rank discovery over the directory of the written overlay gives {o['discovered']}, the source is rank {o['expected_discovery'][1][0][0]} [{opt}]")
+        if "whatif_error" in impl:
+            disc.append(f"what-if re-weighting / recomputed path / overlay on the same graph raised {impl['whatif_error'][:300]} {w}")
         if "second_error" in impl:
             disc.append(f"second analysis / overlay on the same object raised {impl['second_error'][:300]} {w}")
         if "counters_after_error" in impl:
